@@ -15,7 +15,8 @@ static randomx_cache* baseCache = nullptr;          // initialised before any fa
 static randomx_dataset synthDs;                      // contents irrelevant for allocation behaviour; fast-VM digests are compared against a fault-free fast VM over the same memory
 static const char KEY[] = "C15 lifecycle key - longer than fifteen bytes";
 static const char INPUT[] = "C15 input";
-static Digest lightDigest[2], fastDigest[2];         // [v2]
+static const char INPUT2[] = "C15 second input of the batch";
+static Digest lightDigest[2], fastDigest[2], lightDigest2[2], fastDigest2[2];         // [v2]
 
 enum Call { ALLOC_CACHE, ALLOC_DATASET, CREATE_VM };
 struct Plan { int call; int flags; int hugeMode; long k; };   // k = 0: fault-free
@@ -42,23 +43,49 @@ static void undo(const Plan& p, void* r) {
 	switch (p.call) { case ALLOC_CACHE: randomx_release_cache((randomx_cache*)r); break; case ALLOC_DATASET: randomx_release_dataset((randomx_dataset*)r); break; default: randomx_destroy_vm((randomx_vm*)r); break; }
 	fa::st().counting = false;
 }
+// "use" between creation and release: everything the library requests while the object is used (key copies on re-initialisation with
+// keys of growing / shrinking length, code regenerated on rebinding, batch API state, dataset items) is recorded and must be given back
+// by the release call - the success-path half of the property ("repeated create/use/destroy cycles do not grow the process")
 static std::string useObject(const Plan& p, void* r) {
+	std::string err;
+	fa::st().counting = true;
 	if (p.call == CREATE_VM) {
-		Digest d; randomx_calculate_hash((randomx_vm*)r, INPUT, sizeof INPUT - 1, d.data());
-		bool v2 = p.flags & RANDOMX_FLAG_V2;
-		const Digest& exp = (p.flags & RANDOMX_FLAG_FULL_MEM) ? fastDigest[v2] : lightDigest[v2];
-		if (d != exp) return "a VM created after the failed call hashes to a wrong digest";
+		randomx_vm* vm = (randomx_vm*)r;
+		const bool v2 = p.flags & RANDOMX_FLAG_V2, fast = p.flags & RANDOMX_FLAG_FULL_MEM;
+		Digest d, d2, d3;
+		randomx_calculate_hash(vm, INPUT, sizeof INPUT - 1, d.data());
+		for (int rep = 0; rep < 2; ++rep) { if (fast) randomx_vm_set_dataset(vm, &synthDs); else randomx_vm_set_cache(vm, baseCache); }   // rebinding (same object: documented as allowed)
+		randomx_calculate_hash_first(vm, INPUT, sizeof INPUT - 1); randomx_calculate_hash_next(vm, INPUT2, sizeof INPUT2 - 1, d2.data()); randomx_calculate_hash_last(vm, d3.data());
+		fa::st().counting = false;
+		const Digest& exp = fast ? fastDigest[v2] : lightDigest[v2]; const Digest& exp2 = fast ? fastDigest2[v2] : lightDigest2[v2];
+		if (d != exp || d2 != exp) err = "a VM created after the failed call hashes to a wrong digest";
+		else if (d3 != exp2) err = "a VM created after the failed call gives a wrong digest for the second input of a batch";
 	}
 	else if (p.call == ALLOC_CACHE) {
 		randomx_cache* c = (randomx_cache*)r;
-		fa::st().counting = true; randomx_init_cache(c, KEY, sizeof KEY - 1); fa::st().counting = false;
+		// keys of growing, equal and shrinking length (beyond and within the small-string size), ending with the reference key
+		static const char* keys[] = {"k", "a considerably longer key: 0123456789 0123456789 0123456789 0123456789", KEY, KEY};   // growing, then shorter, then redundant
+		for (const char* k : keys) randomx_init_cache(c, k, strlen(k));
 		randomx_vm* vm = randomx_create_vm(RANDOMX_FLAG_JIT, c, nullptr);
-		if (!vm) return "VM creation over the new cache failed";
-		Digest d; randomx_calculate_hash(vm, INPUT, sizeof INPUT - 1, d.data()); randomx_destroy_vm(vm);
-		if (d != lightDigest[0]) return "a cache allocated after the failed call gives a wrong digest";
+		Digest d{}; bool created = vm != nullptr;
+		if (vm) {
+			randomx_calculate_hash(vm, INPUT, sizeof INPUT - 1, d.data());
+			randomx_init_cache(c, "other", 5); randomx_vm_set_cache(vm, c); randomx_init_cache(c, KEY, sizeof KEY - 1); randomx_vm_set_cache(vm, c);   // re-key + rebind twice
+			Digest e; randomx_calculate_hash(vm, INPUT, sizeof INPUT - 1, e.data()); if (e != d) d = Digest{};
+			randomx_destroy_vm(vm);
+		}
+		fa::st().counting = false;
+		if (!created) err = "VM creation over the new cache failed";
+		else if (d != lightDigest[0]) err = "a cache allocated after the failed call gives a wrong digest";
 	}
-	else { uint8_t* m = (uint8_t*)randomx_get_dataset_memory((randomx_dataset*)r); if (!m) return "dataset memory is NULL"; m[0] = 1; m[randomx::DatasetSize - 1] = 2; }
-	return "";
+	else {
+		randomx_dataset* ds = (randomx_dataset*)r;
+		uint8_t* m = (uint8_t*)randomx_get_dataset_memory(ds);
+		if (m) { randomx_init_dataset(ds, baseCache, 0, 9); randomx_init_dataset(ds, baseCache, randomx_dataset_item_count() - 3, 3); m[4096 * 5] = 1; }
+		fa::st().counting = false;
+		if (!m) err = "dataset memory is NULL";
+	}
+	return err;
 }
 
 // runs one plan in this process; returns "" if the property holds
@@ -186,8 +213,8 @@ int main(int argc, char** argv) {
 		size_t len = ((size_t)randomx::DatasetSize + 4095) / 4096 * 4096;
 		synthDs.memory = (uint8_t*)::syscall(SYS_mmap, nullptr, len, PROT_READ | PROT_WRITE, MAP_PRIVATE | MAP_ANONYMOUS | MAP_NORESERVE, -1, 0); synthDs.dealloc = nullptr;
 		for (int v2 = 0; v2 < 2; ++v2) {
-			randomx_vm* l = randomx_create_vm((randomx_flags)(RANDOMX_FLAG_JIT | (v2 ? RANDOMX_FLAG_V2 : 0)), baseCache, nullptr); randomx_calculate_hash(l, INPUT, sizeof INPUT - 1, lightDigest[v2].data()); randomx_destroy_vm(l);
-			randomx_vm* f = randomx_create_vm((randomx_flags)(RANDOMX_FLAG_JIT | RANDOMX_FLAG_FULL_MEM | (v2 ? RANDOMX_FLAG_V2 : 0)), nullptr, &synthDs); randomx_calculate_hash(f, INPUT, sizeof INPUT - 1, fastDigest[v2].data()); randomx_destroy_vm(f);
+			randomx_vm* l = randomx_create_vm((randomx_flags)(RANDOMX_FLAG_JIT | (v2 ? RANDOMX_FLAG_V2 : 0)), baseCache, nullptr); randomx_calculate_hash(l, INPUT, sizeof INPUT - 1, lightDigest[v2].data()); randomx_calculate_hash(l, INPUT2, sizeof INPUT2 - 1, lightDigest2[v2].data()); randomx_destroy_vm(l);
+			randomx_vm* f = randomx_create_vm((randomx_flags)(RANDOMX_FLAG_JIT | RANDOMX_FLAG_FULL_MEM | (v2 ? RANDOMX_FLAG_V2 : 0)), nullptr, &synthDs); randomx_calculate_hash(f, INPUT, sizeof INPUT - 1, fastDigest[v2].data()); randomx_calculate_hash(f, INPUT2, sizeof INPUT2 - 1, fastDigest2[v2].data()); randomx_destroy_vm(f);
 		}
 	});
 }
